@@ -2,7 +2,7 @@
    number of stanzas received on the stream-managed session so far.
    (The h of <resume/> is the same counter: see Props/C11.v, C11_resume_content.) *)
 From Coq Require Import List ZArith NArith Bool.
-From XV Require Import Lib.Sx Model.Recv Proofs.RecvP.
+From XV Require Import Lib.Sx Model.Recv Proofs.RecvP Model.Session Model.SessionSpec Proofs.SessionSpecP Proofs.SessionHistP.
 Import ListNotations.
 Open Scope N_scope.
 
@@ -30,6 +30,33 @@ Proof.
   destruct H as (_ & _ & Hd & _ & Hin). split; assumption.
 Qed.
 
+(* Across connections ("continued across a resumption"), for every history of
+   connections on one Client, every server script and every amount of traffic:
+   a <resume/> always carries the count held; after a session that was resumed the
+   count held is the old one plus the stanzas received on it (C09_h_exact and
+   C09_count_at_loss give the per-stanza counting, [k_traffic] is their total); after a
+   session on which stream management was newly enabled it is the number of stanzas
+   received on that session alone.  ([hist_ok], Model/SessionSpec.v, is exactly these
+   three clauses for each connection of the history, the state after one connection
+   being the state before the next.) *)
+Theorem C09_count_across_resumptions : forall cfg cs p,
+  hist_ok p cs (run_conns cfg p cs).
+Proof. intros cfg cs p. exact (run_conns_hist cfg cs p). Qed.
+
+(* enable, 3 stanzas, resume with h = 3, 2 more stanzas, resume with h = 5 *)
+Example C09_history_example :
+  let f1 := {| f_tls := TlsNone; f_mechs := [mech_plain]; f_bind := false; f_sess := SessAbsent; f_sm := false |} in
+  let f2 := {| f_tls := TlsNone; f_mechs := []; f_bind := true; f_sess := SessAbsent; f_sm := true |} in
+  let cfg := {| c_insecure := true; c_resource := []; c_sm_resume := true; c_mechs := [mech_plain] |} in
+  let hello := [SHeader []; SFeatures f1; SSuccess; SHeader []; SFeatures f2] in
+  let c1 := {| k_dial := true; k_tls := true; k_script := hello ++ [SIq TResult (PlBind [1]) false; SEnabled [7] ResTrue]; k_traffic := 3 |} in
+  let c2 := {| k_dial := true; k_tls := true; k_script := hello ++ [SResumed [7]]; k_traffic := 2 |} in
+  let c3 := {| k_dial := true; k_tls := true; k_script := hello ++ [SResumed [7]]; k_traffic := 0 |} in
+  map (fun x => filter (fun r => match r with RResume _ _ => true | _ => false end) (reqs (outs x)))
+      (run_conns cfg (fresh true) [c1; c2; c3])
+  = [[]; [RResume [7] 3]; [RResume [7] 5]].
+Proof. reflexivity. Qed.
+
 Example C09_example :
   answers (crecv 5 0 None [ISmA 0; INonza 0; ISmR; IStanza KMsg 1; IStanza KPres 2; ISmA 3; ISmR])
   = [5; 7].
@@ -37,3 +64,4 @@ Proof. reflexivity. Qed.
 
 Print Assumptions C09_h_exact.
 Print Assumptions C09_count_at_loss.
+Print Assumptions C09_count_across_resumptions.
